@@ -22,6 +22,21 @@ LineCount(s) == Cardinality({k \in 1..Len(s) : s[k] = LF \/ (s[k] = CR /\ (k = L
 Sub(s, a, b) == SubSeq(s, a+1, b)   \* 0-based half-open [a,b)
 
 
+\* index (1-based) just after the first line of x (line = up to and including LF, CR or CRLF)
+RECURSIVE FirstLineEnd(_, _)
+FirstLineEnd(x, i) == IF i > Len(x) THEN Len(x)
+                      ELSE IF x[i] = LF THEN i
+                      ELSE IF x[i] = CR THEN (IF i < Len(x) /\ x[i+1] = LF THEN i + 1 ELSE i)
+                      ELSE FirstLineEnd(x, i + 1)
+\* the lines of x, each with its line ending (LF, CR and CRLF are one ending each)
+RECURSIVE SplitLines(_)
+SplitLines(x) == IF x = <<>> THEN <<>>
+                 ELSE LET e == FirstLineEnd(x, 1) IN <<SubSeq(x, 1, e)>> \o SplitLines(SubSeq(x, e + 1, Len(x)))
+RECURSIVE Concat(_)
+Concat(ls) == IF ls = <<>> THEN <<>> ELSE Head(ls) \o Concat(Tail(ls))
+LineBody(l) == IF Len(l) >= 2 /\ l[Len(l)-1] = CR /\ l[Len(l)] = LF THEN SubSeq(l, 1, Len(l) - 2)
+               ELSE IF Len(l) >= 1 /\ l[Len(l)] \in {LF, CR} THEN SubSeq(l, 1, Len(l) - 1) ELSE l
+
 \* the bytes a caller sees for input bytes x: every NUL replaced by U+FFFD (EF BF BD)
 ReplaceNUL(x) == Fill(Pad(x))
 \* number of line endings in x, LF / CR / CRLF counting once each (same as LineCount; spec-side name)
